@@ -113,6 +113,14 @@ func init() {
 		LevelText: "hot restart between two real Listener processes and a real SessionManager with client traffic running throughout: after the hand-over every pool holds a session of the announced epoch connected to the new server, listener and manager have left the hot-restart state within 12 s (virtual) of the last event whether the hand-over completed, failed or timed out, and uses issued afterwards succeed."})
 	reg(&propSpec{ID: "C17", Level: "exploration", QuickSec: 45, ThoroughSec: 1200, DesignRef: "6.C17", Scenarios: []scenSpec{{Name: "mgr", Share: 1}}, Rule: mgrRule,
 		LevelText: "server process killed and restarted, single server-side sessions closed, interleaved with hot restart and SessionManager.Close: calls made during the outage return (never hang), once a server is reachable every pool holds a live session again within rebuild interval + 12 s and uses succeed, and after Close the manager dials no more."})
+	reg(&propSpec{ID: "C18", Level: "exploration", QuickSec: 40, ThoroughSec: 1200, DesignRef: "6.C18",
+		Scenarios: []scenSpec{{Name: "evconn", Share: 3}, {Name: "sess", Share: 1}},
+		LevelText: "the repository's real epoll dispatcher and connection handler on the simulated kernel: writes of 1 B .. 5 MiB (write and writev, buffer growth and the >4 MiB shrink path) through socket buffers of 1 B .. 1 MiB with partial writes, EAGAIN, spurious EAGAIN and fragmented reads, a reader callback that consumes a tape-chosen prefix per invocation (nothing, half, n bytes, all) and a stalled reader process; oracle: every callback buffer equals the not yet consumed bytes followed by new ones of the written stream, nothing is shown that was not written, everything written is eventually offered and consumed exactly once. Concurrent senders are exercised where the code provides the exclusion (real sessions: wake-ups, send loop, fallback data, close events from several threads): a tap on both connections is parsed by an independent reference parser that must find whole events only.",
+		Rule: "seeded write sequences (sizes anchored at 8, 4096, 65536, 1 MiB, 4 MiB +-1) x socket buffer size x consumption pattern x fragmentation x schedules; non-trivial = bytes were written and more than 20 context switches; distinct = distinct schedule signatures among non-trivial runs; plus the sess workload with the wire tap"})
+	reg(&propSpec{ID: "C19", Level: "exploration", QuickSec: 40, ThoroughSec: 1200, DesignRef: "6.C19",
+		Scenarios: []scenSpec{{Name: "netad", Share: 1}},
+		LevelText: "the real Listen/Accept/streamWrapper adapter over the simulated kernel with 1-3 client sessions of 1-3 streams each, client Write calls and server Read calls of arbitrary sizes, echo traffic, deadlines, closes from either side and the listener closed at a tape-chosen moment (during handshakes, during traffic, or at the end); oracle: every stream the peer could see surfaces exactly once as a net.Conn carrying its own bytes in order, Write returns len(p) or an error, Read returns 1..len(p) bytes or an error, deadlines never fire early, operations after Close fail, closing the listener unblocks Accept within 5 s, and once every accepted connection is closed the server process holds no session resources (descriptor, memfd, mapping) any more.",
+		Rule: "seeded session/stream/write/read-size plans x backlog size x listener close time x session configuration x schedules; non-trivial = at least one connection was accepted and more than 200 context switches; distinct = distinct schedule signatures among non-trivial runs"})
 	reg(&propSpec{ID: "C13", Level: "exploration", QuickSec: 40, ThoroughSec: 1200, DesignRef: "6.C13",
 		Scenarios: []scenSpec{{Name: "fuzz", Share: 1}},
 		LevelText: "real sessions (client and server role, handshake and established phase) whose control connection receives generated wire-format events mutated by truncation, inconsistent lengths, bad magic/version/type, wrong direction or phase, duplication and garbage, delivered under seeded fragmentations and schedules; oracle: no panic or memory fault in any goroutine of the victim process, handshake returns within InitializeTimeout + slack, another session of the same process still completes a round trip, and a well-formed byte string has the same observable effect however it is cut into reads (differential between two victims in the same run).",
